@@ -2,6 +2,7 @@ package model
 
 import (
 	"fmt"
+	"strings"
 )
 
 // Dev is one deviation from the base workspace. Two deviations with the same Slot replace the
@@ -141,9 +142,27 @@ func Catalogue(syntax string) []Dev {
 	add("map", "entry-name-clash", func(ws *WS) {
 		M(ws).Body = append(M(ws).Body, &Field{Name: "m", Number: 4, Map: &[2]string{"string", "int32"}}, &Msg{Name: "MEntry"})
 	})
+	// a repeated scalar field whose name maps to the same entry name, before and after the map
+	add("map", "after-repeated-scalar-with-same-entry-name", func(ws *WS) {
+		M(ws).Body = append(M(ws).Body, f("repeated", "int32", "M", 8), &Field{Name: "m", Number: 4, Map: &[2]string{"string", "int32"}})
+	})
+	add("map", "before-repeated-scalar-with-same-entry-name", func(ws *WS) {
+		M(ws).Body = append(M(ws).Body, &Field{Name: "m", Number: 4, Map: &[2]string{"string", "int32"}}, f("repeated", "int32", "M", 8))
+	})
 	add("map", "snake-name", func(ws *WS) {
 		M(ws).Body = append(M(ws).Body, &Field{Name: "my_map_2x", Number: 4, Map: &[2]string{"string", "D"}})
 	})
+	// a oneof that holds a group, placed in front of the other nested types
+	if syntax == "proto2" {
+		add("group", "in-oneof-before-nested-types", func(ws *WS) {
+			og := &Oneof{Name: "grp", Fields: []*Field{{Number: 20, Group: &Msg{Name: "OG", Body: []any{f("optional", "int32", "gi", 1)}}}, f("", "int32", "gq", 21)}}
+			M(ws).Body = append([]any{og}, M(ws).Body...)
+		})
+		add("group", "first-in-M", func(ws *WS) {
+			g := &Field{Label: "optional", Number: 20, Group: &Msg{Name: "FG", Body: []any{f("optional", "int32", "gi", 1), f("optional", "int32", "gj", 2)}}}
+			M(ws).Body = append([]any{g}, M(ws).Body...)
+		})
+	}
 	// extra group
 	add("group", "G", func(ws *WS) {
 		M(ws).Body = append(M(ws).Body, &Field{Label: "optional", Number: 5, Group: &Msg{Name: "G", Body: []any{f("optional", "int32", "gi", 1)}}})
@@ -233,6 +252,13 @@ func Catalogue(syntax string) []Dev {
 		add("x1.more", "nested-in-M-tag-102-typed-Inner", func(ws *WS) {
 			M(ws).Body = append(M(ws).Body, &ExtBlock{Extendee: "D", Fields: []*Field{f(lab, "Inner", "x2", 102)}})
 		})
+		add("x1.more", "nested-in-M-with-options", func(ws *WS) {
+			M(ws).Body = append(M(ws).Body, &ExtBlock{Extendee: "D", Fields: []*Field{f(lab, "int32", "x2", 103, Option{"deprecated", "true"}), f(lab, "string", "x3", 104, Option{"deprecated", "false"}, Option{"json_name", "\"x3\""})}})
+		})
+		add("x1.more", "nested-in-Inner-with-options", func(ws *WS) {
+			ws.AInner.Body = append(ws.AInner.Body, &ExtBlock{Extendee: ".a.b.D", Fields: []*Field{f(lab, "int32", "x2", 105, Option{"deprecated", "true"})}})
+		})
+		add("x1.opts", "deprecated", func(ws *WS) { X(ws).Opts = []Option{{"deprecated", "true"}} })
 		add("x1.opts", "json_name", func(ws *WS) { X(ws).Opts = []Option{{"json_name", "\"j\""}} })
 		add("x1.opts", "default:7", func(ws *WS) { X(ws).Opts = []Option{{"default", "7"}} })
 		add("x1.type", "M", func(ws *WS) { X(ws).Type = "M" })
@@ -438,6 +464,14 @@ extend google.protobuf.ExtensionRangeOptions { optional int32 ero = 50001; }
 		feat("ME", fv[0]+"="+fv[1], func(ws *WS) { e := ME(ws); e.Body = append([]any{&Option{o.Name, o.Value}}, e.Body...) })
 	}
 	if syntax == "2023" {
+		for _, mf := range [][3]string{{"int32", "string", "features.utf8_validation=NONE"}, {"string", "int32", "features.utf8_validation=NONE"}, {"int32", "int32", "features.utf8_validation=NONE"},
+			{"string", "bytes", "features.utf8_validation=VERIFY"}, {"int32", "D", "features.message_encoding=DELIMITED"}, {"int32", "int32", "features.repeated_field_encoding=EXPANDED"}, {"int32", "E", "features.field_presence=IMPLICIT"}} {
+			mf := mf
+			add("map", "feature:"+mf[0]+","+mf[1]+":"+mf[2], func(ws *WS) {
+				kv := strings.SplitN(mf[2], "=", 2)
+				M(ws).Body = append(M(ws).Body, &Field{Name: "m", Number: 4, Map: &[2]string{mf[0], mf[1]}, Opts: []Option{{kv[0], kv[1]}}})
+			})
+		}
 		add("f1.type", "string-repeated", func(ws *WS) { F(ws, "f1").Type = "string"; F(ws, "f1").Label = "repeated" })
 		add("f1.label", "repeated-int", func(ws *WS) { F(ws, "f1").Label = "repeated" })
 	}
